@@ -366,6 +366,13 @@ fn main() {
             }
         }
     }
+    // three arguments whose headings interleave (A, B, A) — every shape in the middle, options around
+    let (m_head, m_upper, m_none) = (2usize, 3usize, 0usize);
+    for s2 in 0..SHAPES.len() {
+        for (ma, mb) in [(m_head, m_upper), (m_head, m_none), (m_none, m_head), (m_upper, m_head)] {
+            cfgs.push((vec![(0, ma), (s2, mb), (1, ma)], 0));
+        }
+    }
     let lines = hostile_lines();
     let second: Vec<String> = match tier {
         Tier::Quick => lines.iter().filter(|l| l.len() <= 3).take(30).cloned().collect(),
